@@ -120,10 +120,7 @@ def make_interp(repo, ufunc_hook, tiny_zero=True, oracle=None):
 
 def bic(I, z1, z2):
     cref = I.get_global('multicomplex', 'Bicomplex')
-    o = Obj(cref.cls)
-    object.__setattr__(o, 'interp', I)
-    o.attrs['z1'], o.attrs['z2'] = z1, z2
-    return o
+    return cref(z1, z2)          # through the real constructor (it may set up more state than the two components)
 
 
 def comps(o):
@@ -155,6 +152,12 @@ RULES = {
     'R-DIV': 'division operators are multiplication by the -1 power (formal field of functions)',
     'R-DERIVED': 'tan cot sec csc tanh coth sech csch exp2 sqrt log2 log10 arcsin arccos arctan arcsinh arccosh arctanh __rpow__ equal '
                  'their textbook definitions in terms of sin cos sinh cosh exp log pow (any square root of -1 accepted as the unit)',
+    'R-BRANCH': 'half-plane correction of the bicomplex argument: on sign representatives of (Re z1, Re z2) the multiple of pi that '
+                '_arg_c adds to arctan(z2 / z1) is odd when Re z1 < 0 (arctan alone has a positive cosine, so exp(log z) = z and '
+                'the reduction to the complex logarithm at z2 = 0 need it) and zero when Re z1 > 0',
+    'R-STATE': 'results are functions of the current components only: after a write to the components (z[k] = v, through a '
+               'slice wrapper z[a:b][k] = v, which shares storage, or into z.z1 directly) mod_c / log / a power of z equal those of a '
+               'fresh object built from the same components (no memoised quantity survives a write)',
     'R-ALIASES': 'component properties: real = z1.real, imag = imag1 = z1.imag, imag2 = z2.real, imag12 = z2.imag',
 }
 
@@ -167,7 +170,7 @@ def run(ctx):
         'C01). Decided: the formal identity between every Bicomplex operation and the holomorphic extension defined by the '
         'idempotent decomposition, by abstract interpretation of the method bodies over symbolic components.')
     rep.assume('formal identities: regularisers (_TINY, clip) are dropped and the principal branch (Re z1 > 0) is taken')
-    mins = {'R-RING': 8, 'R-EXPPOLY': 6, 'R-LOG': 4, 'R-POW': 5, 'R-DIV': 3, 'R-DERIVED': 15, 'R-ALIASES': 4}
+    mins = {'R-RING': 8, 'R-EXPPOLY': 6, 'R-LOG': 4, 'R-POW': 5, 'R-DIV': 3, 'R-DERIVED': 15, 'R-BRANCH': 8, 'R-STATE': 6, 'R-ALIASES': 4}
     for rid, text in RULES.items():
         rep.rule(rid, text, mins[rid])
     mc = ctx.repo.module('multicomplex')
@@ -176,6 +179,8 @@ def run(ctx):
     ring(ctx, mc)
     exppoly(ctx, mc)
     logs(ctx, mc)
+    branch(ctx, mc)
+    state(ctx, mc)
     powers(ctx, mc)
     formal_level(ctx, mc)
     aliases(ctx, mc)
@@ -431,6 +436,98 @@ def logs(ctx, mc):
                   'arctan(z2 / z1) = theta', nm, key='log %s' % nm)
 
 
+def branch(ctx, mc):
+    """pi-multiple added by _arg_c on concrete sign representatives (arctan stays an opaque symbol)."""
+    rep = ctx.rep
+    where = where_of(mc, '_arg_c')
+    for re1, im1 in ((-2, 0), (-2, 1), (Fr(-1, 3), -1), (3, 0), (Fr(1, 2), 1)):
+        for re2, im2 in ((0, 0), (0, 1), (1, 0), (-1, 0), (Fr(1, 1000), -2), (Fr(-1, 1000), 0)):
+            label = 'z1=%s%+dj, z2=%s%+dj' % (re1, im1, re2, im2)
+
+            def hook(name, x):
+                if name == 'arctan':
+                    return Poly.const(0) if (isinstance(x, (int, Fr)) and x == 0) or (isinstance(x, Poly) and x.is_zero()) \
+                        else Poly.sym('ATAN')
+                return NotImplemented
+            I, models = make_interp(ctx.repo, hook)
+            cref = I.get_global('multicomplex', 'Bicomplex')
+            try:
+                a = I.getattr(cref, '_arg_c')(Arr((), [Poly.const(re1) + I_ * im1]), Arr((), [Poly.const(re2) + I_ * im2]))
+                a = a.item() if isinstance(a, Arr) else a
+                a = Poly.of(a)
+                k = None
+                rest = Poly({m: c for m, c in a.t.items() if not any(sy == 'pi' for sy, _ in m)})
+                pi_part = a - rest
+                q = pi_part.subs({'pi': Poly.const(1)}) if hasattr(pi_part, 'subs') else None
+                if q is not None and q.is_const() and q.const_value().is_rational():
+                    k = q.const_value().rational()
+                fact = {'arg_c': repr(a)[:120], 'pi_multiple': str(k)}
+                if k is None:
+                    rep.undecided('R-BRANCH', 'multicomplex.Bicomplex._arg_c', fact, label)
+                    continue
+                ok = (k == 0) if re1 > 0 else (k.denominator == 1 and k.numerator % 2 == 1)
+            except (AlgebraError, TypeError, AttributeError) as exc:
+                rep.undecided('R-BRANCH', 'multicomplex.Bicomplex._arg_c', {'cannot_evaluate': str(exc)[:160]}, label)
+                continue
+            except InterpRaise as exc:
+                ok, fact = False, {'raises': exc.exc_name, 'message': exc.msg[:120]}
+            rep.check(ok, 'R-BRANCH', 'multicomplex.Bicomplex._arg_c', where, fact,
+                      'odd multiple of pi for Re z1 < 0, none for Re z1 > 0', label, key='branch')
+
+
+def state(ctx, mc):
+    """History scenarios on one Bicomplex array object: a derived quantity must follow writes to the components."""
+    rep = ctx.rep
+    a0, a1, b0, b1, v1, v2 = (Poly.sym(n) for n in ('a0', 'a1', 'b0', 'b1', 'v1', 'v2'))
+
+    def write_direct(I, z, val):
+        I.call_dunder(z, '__setitem__', 1, val)
+
+    def write_slice(I, z, val):
+        part = I.call_dunder(z, '__getitem__', slice(0, 2))
+        I.call_dunder(part, '__setitem__', 1, val)
+
+    def write_component(I, z, val):
+        I.getattr(z, 'z1')[1] = I.getattr(val, 'z1').item() if isinstance(I.getattr(val, 'z1'), Arr) else I.getattr(val, 'z1')
+        I.getattr(z, 'z2')[1] = I.getattr(val, 'z2').item() if isinstance(I.getattr(val, 'z2'), Arr) else I.getattr(val, 'z2')
+    for wname, write in (('z[1] = v', write_direct), ('z[0:2][1] = v', write_slice), ('z.z1[1], z.z2[1] = v', write_component)):
+        for mname, call in (('mod_c', lambda I, z: I.getattr(z, 'mod_c')()), ('log', lambda I, z: I.getattr(z, 'log')()),
+                            ('__pow__', lambda I, z: I.call_dunder(z, '__pow__', 3))):
+            label = '%s; %s; %s' % (mname, wname, mname)
+            I, models = make_interp(ctx.repo, polar_ufunc, oracle=polar_oracle)
+            models.hooks['np.where'] = lambda m, cond, a=None, b=None: (b if isinstance(cond, Unk) or
+                                                                         (isinstance(cond, Arr) and any(isinstance(v, Unk) for v in cond.items()))
+                                                                         else NotImplemented)
+            models.hooks['np.clip'] = lambda m, a, *args, **kw: a
+            cref = I.get_global('multicomplex', 'Bicomplex')
+            try:
+                z = cref(Arr((2,), [a0, a1]), Arr((2,), [b0, b1]))
+                call(I, z)
+                write(I, z, cref(v1, v2))
+                got = call(I, z)
+                z1n, z2n = I.getattr(z, 'z1'), I.getattr(z, 'z2')
+                if not (same(z1n[1], v1) and same(z2n[1], v2)):
+                    rep.undecided('R-STATE', 'multicomplex.Bicomplex.__setitem__', {'write_not_seen': repr(z1n)[:100]}, label)
+                    continue
+                fresh = call(I, cref(z1n.copy(), z2n.copy()))
+
+                def flat(r):
+                    if isinstance(r, Obj):
+                        return list(I.getattr(r, 'z1').items()) + list(I.getattr(r, 'z2').items())
+                    return list(r.items()) if isinstance(r, Arr) else [r]
+                g, f = flat(got), flat(fresh)
+                bad = [k for k in range(len(f)) if len(g) != len(f) or not same(drop_branch(g[k]), drop_branch(f[k]))]
+                fact = {'stale_elements': bad[:4], 'got': repr(g[1])[:120] if len(g) > 1 else None,
+                        'fresh': repr(f[1])[:120] if len(f) > 1 else None}
+            except (AlgebraError, TypeError, AttributeError) as exc:
+                rep.undecided('R-STATE', 'multicomplex.Bicomplex.%s' % mname, {'cannot_evaluate': str(exc)[:160]}, label)
+                continue
+            except InterpRaise as exc:
+                bad, fact = True, {'raises': exc.exc_name, 'message': exc.msg[:120]}
+            rep.check(not bad, 'R-STATE', 'multicomplex.Bicomplex.%s' % mname, where_of(mc, mname), fact,
+                      'the value a fresh object with the same components gives', label, key='state %s' % mname)
+
+
 def drop_branch(v):
     """Remove k*pi terms whose coefficient is an undetermined boolean (Choice(cond, pi*sign, 0))."""
     if isinstance(v, Choice):
@@ -672,6 +769,8 @@ def aliases(ctx, mc):
     for name, want in (('real', a), ('imag', b), ('imag1', b), ('imag2', c), ('imag12', d)):
         try:
             got = I.getattr(Z, name)
+            if isinstance(got, Arr) and got.size == 1:
+                got = got.item()
             ok = same(got, want)
             fact = {name: repr(got)}
         except InterpRaise as exc:
